@@ -1043,6 +1043,7 @@ def variants():
         Variant("f-writeback-omits-x", "bad", edit(mu, "Mutator.run", _merge_writebacks(("u", "logl", "blobs"))), ["C07.f"]),
         Variant("g-nan-to-num-kernel", "bad", insert_before(mc, "BaseMCMCRunner._evaluate_likelihood", "self.n_calls += self.n_walkers", "logl_prime = np.nan_to_num(logl_prime)"), ["C07.g"], quick=True),
         Variant("g-nan-to-num-wrapper", "bad", replace_expr(core, "SamplerCore._log_like", "(self.config.log_likelihood(x), None)", "(np.nan_to_num(self.config.log_likelihood(x), nan=-np.inf), None)"), ["C07.g"]),
+        Variant("a-partial-row-copy", "bad", insert_before(mc, "BaseMCMCRunner.run", "logl_prime, blobs_prime = self._evaluate_likelihood(x_prime)", "bad_rows = ~np.all(np.isfinite(x_prime), axis=1)\nx_prime[bad_rows] = self.x[bad_rows]"), ["C07.a"], quick=True),
         Variant("k-zero-is-falsy", "bad", replace_stmt("tempest/tools.py", "FunctionWrapper.__call__", "return self.f(x, *self.args, **self.kwargs)", "value = self.f(x, *self.args, **self.kwargs)\nif not value:\n    return -np.inf\nreturn value"), ["C07.k"], quick=True),
         Variant("k-benign-bound-result", "benign", replace_stmt("tempest/tools.py", "FunctionWrapper.__call__", "return self.f(x, *self.args, **self.kwargs)", "value = self.f(x, *self.args, **self.kwargs)\nreturn value")),
         Variant("i-kwargs-dropped", "bad", replace_expr("tempest/sampler.py", "Sampler.__init__", "FunctionWrapper(log_likelihood, log_likelihood_args, log_likelihood_kwargs)", "FunctionWrapper(log_likelihood, log_likelihood_args, None)"), ["C07.i"], quick=True),
